@@ -486,6 +486,21 @@ def check_same_postprocessing(run, A):
             vals = list(r.args[0]) if r.op == 'tuple' else list(r.args[1]) if r.op == 'dict' else []
             if len(vals) != 3:
                 continue
+            # the entries that are averaged are not selected by the value of the ratio itself (isfinite / isnan / a comparison of it inside np.where): SDR, SIR and SNR
+            # would then be averaged over DIFFERENT sets of sources, and the averages no longer obey SDR <= min(SIR, SNR)
+            selecting = None
+            for v in vals:
+                for x in walk_terms(v):
+                    if is_call_to(x, 'numpy.isfinite', 'numpy.isnan', 'numpy.isinf', 'numpy.nanmean', 'numpy.nansum', 'numpy.ma.masked_invalid') and \
+                            any(call_parts(y)[0] == S + '_sxr' for y in walk_terms(call_arg(x, 0))):
+                        selecting = x
+            if selecting is not None:
+                n += 1
+                run.violation('R-SIB', f'{name}: the sources that are averaged do not depend on the ratio that is averaged', fn.loc(getattr(selecting, 'node', None)),
+                              f'`{norm_stmt(selecting.node)[:80]}` selects the entries of a ratio by their own value before the average over the sources: a source with SIR = inf '
+                              f'(no cross talk) drops out of the averaged SIR but still counts in the averaged SDR - the averages are over different sets of sources and '
+                              f'SDR <= min(SIR, SNR) no longer holds', construct=f'R-SIB::{q}::value-dependent-selection')
+                continue
             sk = [skeleton(v) for v in vals]
             if any('?' in repr(x) for x in sk):
                 run.unresolved('R-SIB', f'{name}: SDR, SIR and SNR are post-processed alike', fn.loc(getattr(r, 'node', None)), 'post-processing of a ratio not recognised')
